@@ -23,7 +23,8 @@ RULE = ("histories of 1..12 operations applied in turn to one tree object, drawn
         "20% contain a KEPT rearrangement: nni_hold (Apply, the object returned by the rearranger is kept), 0-3 sort / rotate / reroot "
         "steps, nni_release (Undo of the same object); prunes that keep exactly two tips or exactly one tip.  Families: "
         "every shape <= 4 tips x 4 single-child configurations x all histories of length <= 2 (sampled in quick); every "
-        "shape with 4-5 tips x hold(k = 0..7) x {nothing, sort, rotate, rotate+sort, reroot at each of 5 inner nodes, reroot+reroot, reroot+sort} x release (6-tip shapes sampled); root tip removal: every unrooted shape with a trifurcating root (4-6 tips) x every arrangement of "
+        "shape with 4-5 tips x hold(k = 0..7) x {nothing, sort, rotate, rotate+sort, reroot at each of 5 inner nodes, reroot+reroot, reroot+sort} x release, and collect(k) x {reroot at each of 5 inner nodes, nothing, sort, rotate} x apply x "
+        "{nothing, reroot, reroot} x release (6-tip shapes sampled); root tip removal: every unrooted shape with a trifurcating root (4-6 tips) x every arrangement of "
         "the three root neighbours x prune of each root-adjacent tip x {nothing, sort, reroot} (60 sampled in quick).  Oracle additionally: a "
         "successful edit does not leave a tip as the root (except SubTree, UnRoot of the two-tip tree, trees already rooted "
         "at a tip); the oracle is evaluated on Go's result also when the model refuses the step.  thorough: every history of length <= 2 over a fixed alphabet of 36 operation instances on every "
@@ -58,10 +59,10 @@ MATCHERS = {}
 NEEDS_INDEX = {"graft", "insert", "merge", "collapse_depth", "prune"}
 OPS = ["reroot", "unroot", "outgroup", "midpoint", "rotate", "sort", "prune", "collapse_len", "collapse_sup",
        "collapse_depth", "resolve", "rmsingle", "graft", "insert", "merge", "nni", "rename", "clone", "subtree",
-       "nni_hold", "nni_release"]
+       "nni_hold", "nni_release", "nni_collect", "nni_apply_held"]
 WEIGHTS = {"reroot": 12, "unroot": 5, "outgroup": 9, "midpoint": 4, "rotate": 5, "sort": 4, "prune": 8, "collapse_len": 4,
            "collapse_sup": 4, "collapse_depth": 4, "resolve": 6, "rmsingle": 4, "graft": 5, "insert": 5, "merge": 3,
-           "nni": 9, "rename": 5, "clone": 4, "subtree": 3, "nni_hold": 2, "nni_release": 2}
+           "nni": 9, "rename": 5, "clone": 4, "subtree": 3, "nni_hold": 2, "nni_release": 2, "nni_collect": 1, "nni_apply_held": 1}
 
 def tip(k): return [Sym("tip"), k]
 def lit(s): return [Sym("lit"), s]
@@ -149,7 +150,7 @@ def rand_op(cx, name):
     elif name == "nni":
         o["k"] = K()
         o["undo"] = rng.random() < 0.3
-    elif name == "nni_hold":
+    elif name in ("nni_hold", "nni_collect"):
         o["k"] = K()
     elif name == "rename":
         r = rng.random()
@@ -184,7 +185,12 @@ def random_history(rng, g, maxlen=12):
         names[rng.randrange(0, min(n, 3))] = rng.choice(["rmsingle", "rmsingle", "prune", "unroot", "collapse_len"])
     if rng.random() < 0.2:
         # a kept rearrangement: Apply, structure-preserving steps, Undo
-        blk = ["nni_hold"] + rng.choices(["sort", "rotate", "reroot", "reroot"], k=rng.randint(0, 3)) + ["nni_release"]
+        mid = lambda: rng.choices(["sort", "rotate", "reroot", "reroot"], k=rng.randint(0, 3))
+        if rng.random() < 0.5:
+            blk = ["nni_hold"] + mid() + ["nni_release"]
+        else:
+            # the handle is collected first and applied after other steps
+            blk = ["nni_collect"] + mid() + ["nni_apply_held"] + mid()[:2] + ["nni_release"]
         if rng.random() < 0.5:
             blk = ["resolve"] + blk          # more binary nodes, more proposals
         at = rng.randrange(0, n + 1)
@@ -331,6 +337,12 @@ def held_family(rng, g, sizes, sample=None):
     # re-rooting between Apply and Undo: at every inner node (n1, n2, inside each moved clade, the old root)
     mids += [[RR(i, i % 2 == 0)] for i in range(5)] + [[RR(1), RR(3, False)], [RR(2), {"op": Sym("sort"), "reinit": False}]]
     hist = [[H(k)] + m + [R] for k in range(8) for m in mids]
+    # collected first, applied after a re-rooting / reordering, possibly re-rooted again, then undone
+    C = lambda k: {"op": Sym("nni_collect"), "reinit": k % 2 == 1, "k": k}
+    AP = {"op": Sym("nni_apply_held"), "reinit": False}
+    pre = [[RR(i, i % 2 == 1)] for i in range(5)] + [[], mids[1], mids[2]]
+    post = [[], [RR(0)], [RR(3, False)]]
+    hist += [[C(k)] + a + [AP] + b + [R] for k in range(8) for a in pre for b in post]
     for t in small_shapes(rng, g, sizes):
         tt = T(t)
         for ops in (hist if sample is None else rng.sample(hist, sample)):
@@ -388,12 +400,12 @@ def gen(rng, tier):
         out += exhaustive(rng, g, [3, 4, 5])
         out += exhaustive(rng, g, [3], maxlen=3)
         out += held_family(rng, g, [4, 5])
-        out += held_family(rng, g, [6], sample=4)
+        out += held_family(rng, g, [6], sample=8)
         out += root_tip_family(rng, g, [4, 5, 6])
         out += singles_family(rng, g, [3, 4])
     elif tier == "quick":
         out += exhaustive(rng, g, [3, 4], sample=8)
-        out += held_family(rng, g, [4, 5], sample=1)
+        out += held_family(rng, g, [4, 5], sample=2)
         out += root_tip_family(rng, g, [4, 5], sample=60)
         out += singles_family(rng, g, [3, 4], sample=2)
     else:
